@@ -80,7 +80,7 @@ def run(ctx):
             # whatever it accepts with strict=True must still survive the round trip
             gen_table = {k: v + rng.choice([0, 1, 1, 2]) for k, v in table.items()}
             ctx.count("loosened_table_molecules")
-        m = random_tree_mol(rng, rng.choice([1, 2, 3, 6, 10, 20, 40, 60]), ncomp=rng.choice([1, 1, 1, 2, 3, 3, 12]),
+        m = random_tree_mol(rng, rng.choice([1, 2, 3, 6, 10, 20, 40, 60] * 3 + [150, 400]), ncomp=rng.choice([1, 1, 1, 2, 3, 3, 12]),
                             p_ring=rng.choice([0.05, 0.15, 0.4]), p_chiral=0.1, p_stereo=0.1, table=gen_table,
                             p_bracket=rng.choice([0.15, 0.15, 0.5]))
         if not m.atoms:
